@@ -7,7 +7,8 @@
    hypotheses are inhabited live as well. *)
 From Coq Require Import String Ascii.
 From Sdns Require Import Common.Base Common.GoList Gen.C20 C20.Model C20.Spec
-  C20.Proofs_gen C20.Proofs_embed C20.Proofs_ptr C20.Proofs_serve C20.Proofs_loops C20.Proofs_subq.
+  C20.Proofs_gen C20.Proofs_embed C20.Proofs_ptr C20.Proofs_serve C20.Proofs_loops C20.Proofs_subq
+  C20.Proofs_relay C20.Proofs_range C20.Proofs_rr C20.Proofs_arpa.
 Open Scope N_scope.
 
 (* ------------------------------------------------------------------ *)
@@ -419,3 +420,176 @@ Theorem no_synthesis_in_excluded_zone :
   /\ (q_type q = type_aaaa -> x_aq (serve cur cf q down work al cut) = false).
 Proof. exact excluded_zone_no_synthesis. Qed.
 Print Assumptions no_synthesis_in_excluded_zone.
+
+(* ------------------------------------------------------------------ *)
+(* the reply built from the A response (RFC 6147 5.1.6; session 5, /repo
+   1a0e74f): never an AAAA, never AD, and every relayed record is a CNAME/DNAME
+   of the A answer whose TTL is lowered — never raised — to the seconds left of
+   the request tree's bound; without a bound the chain is relayed as it is *)
+Theorem abasis_reply_within_bound :
+  forall cf q down work al cut r x,
+  x_path (serve cur cf q down work al cut) = PABasis ->
+  x_reply (serve cur cf q down work al cut) = Some r ->
+  In x (r_answer r) ->
+  r_ad r = false
+  /\ (forall s, cut = Some s -> rr_ttl x <= s)
+  /\ exists ar y, al = QResp ar /\ In y (m_answer ar) /\ is_chain y = true
+       /\ x = set_ttl (bound_ttl cut (rr_ttl y)) y /\ rr_ttl x <= rr_ttl y.
+Proof. exact (abasis_within_bound_lem cur). Qed.
+Print Assumptions abasis_reply_within_bound.
+
+Theorem abasis_reply_shape :
+  forall cf q down work al cut r,
+  x_path (serve cur cf q down work al cut) = PABasis ->
+  x_reply (serve cur cf q down work al cut) = Some r ->
+  exists m mark ar, down = Some (m, mark) /\ al = QResp ar
+    /\ (m_rcode ar <> 0 \/ filter is_a (m_answer ar) = [])
+    /\ gates_open (compile cf) q = true /\ q_type q = type_aaaa
+    /\ down_allows (compile cf) m mark work = true
+    /\ r = mk_reply false (m_rcode ar) false (basis_edes m) (relay_rrs cut (filter is_chain (m_answer ar))).
+Proof. exact (abasis_reply_lem cur). Qed.
+Print Assumptions abasis_reply_shape.
+
+Theorem abasis_reply_never_aaaa :
+  forall cf q down work al cut r x,
+  x_path (serve cur cf q down work al cut) = PABasis ->
+  x_reply (serve cur cf q down work al cut) = Some r ->
+  In x (r_answer r) -> is_aaaa x = false.
+Proof. exact (abasis_no_aaaa_lem cur). Qed.
+Print Assumptions abasis_reply_never_aaaa.
+
+(* ------------------------------------------------------------------ *)
+(* "eligible clients", "excluded IPv4 ranges" as statements about numbers
+   (session 5).  Model.net_contains is net.IPNet.Contains as the Go source has
+   it (To4 shortening, byte masks, length comparison); Spec.spec_in_net is
+   "the leading bits of the 128-bit numbers agree" (IPv4 at ::ffff:0:0/96).
+   For every network net.ParseCIDR can return and every 4- or 16-byte address:
+   what Contains accepts lies numerically inside the range; for an IPv4
+   network and an address that has an IPv4 form, exactly then.  (The converse
+   fails across families: ::/0 does not "contain" 10.1.2.3 in Go.) *)
+Theorem contains_accepts_only_the_range :
+  forall n ip, wf_net n -> bytes_ok ip -> net_contains n ip = true -> spec_in_net n ip = true.
+Proof. exact contains_in_range. Qed.
+Print Assumptions contains_accepts_only_the_range.
+
+Theorem contains_v4_is_the_range :
+  forall n ip, wf_net4 n -> bytes_ok ip -> to4 ip <> None ->
+  (net_contains n ip = true <-> spec_in_net n ip = true).
+Proof. exact contains4_iff. Qed.
+Print Assumptions contains_v4_is_the_range.
+
+(* the masked byte comparison underneath, for any length: equal leading bits *)
+Theorem masked_compare_is_leading_bits :
+  forall a b ones,
+  length a = length b -> bytes_ok a -> bytes_ok b -> ones <= 8 * N.of_nat (length a) ->
+  (masked_eqb a (mask_bytes ones (length a)) b = true
+   <-> bytes_val a / 2 ^ (8 * N.of_nat (length a) - ones) = bytes_val b / 2 ^ (8 * N.of_nat (length a) - ones)).
+Proof. exact masked_compare_leading_bits. Qed.
+Print Assumptions masked_compare_is_leading_bits.
+
+(* synthesis — and already the A lookup — only for a client whose address lies
+   numerically inside a configured client network (when any is configured) *)
+Theorem synthesis_client_in_network :
+  forall cf q down work al cut,
+  Forall wf_net (c_clients (compile cf)) -> bytes_ok (q_client q) ->
+  x_path (serve cur cf q down work al cut) = PSynth
+  \/ (x_aq (serve cur cf q down work al cut) = true /\ q_type q = type_aaaa) ->
+  c_clients (compile cf) = []
+  \/ exists n, In n (c_clients (compile cf)) /\ spec_in_net n (q_client q) = true.
+Proof. exact synthesis_client_in_network_lem. Qed.
+Print Assumptions synthesis_client_in_network.
+
+(* no synthesised AAAA under the well-known prefix embeds an IPv4 address that
+   lies numerically inside an excluded range, and an A record inside one
+   produces no AAAA under that prefix; the source's default list is canonical *)
+Theorem excluded_range_never_synthesised :
+  forall cf q m mark work ar cut r o t e,
+  Forall wf_net4 (c_excl_a (compile cf)) ->
+  (forall o' ta ip, In (RA o' ta ip) (m_answer ar) -> bytes_ok ip) ->
+  x_path (serve cur cf q (Some (m, mark)) work (QResp ar) cut) = PSynth ->
+  x_reply (serve cur cf q (Some (m, mark)) work (QResp ar) cut) = Some r ->
+  In (RAAAA o t e) (r_answer r) ->
+  exists p v4, In p (c_prefixes (compile cf)) /\ e = embed (cp_net p) v4 /\ length v4 = 4%nat
+    /\ (is_well_known (cp_net p) = true ->
+        forall n, In n (c_excl_a (compile cf)) -> spec_in_net n v4 = false).
+Proof. exact excluded_range_never_synthesised_lem. Qed.
+Print Assumptions excluded_range_never_synthesised.
+
+Theorem excluded_address_skipped :
+  forall c ttl p o ta ip v4 n,
+  wf_net4 n -> In n (c_excl_a c) -> cp_wk p = true ->
+  bytes_ok ip -> to4 ip = Some v4 -> spec_in_net n v4 = true ->
+  synth_one c ttl p (RA o ta ip) = [].
+Proof. exact excluded_address_skipped_lem. Qed.
+Print Assumptions excluded_address_skipped.
+
+Theorem default_exclusions_canonical : Forall wf_net4 default_exclude_a.
+Proof. exact default_exclude_a_wf. Qed.
+Print Assumptions default_exclusions_canonical.
+
+(* ------------------------------------------------------------------ *)
+(* the record walks of dns64.go from the source (session 5; dns.RR as a sum
+   type, Gen/C20.v regenerated from /repo on every run).  [soa_of] reads an
+   authority record as the model keeps it, [rr_as_I] an answer record of the
+   model as the dns.RR it stands for.
+   negativeAAAATTL: the ceiling of the synthesised TTL in the model is the value
+   the translated function finds — RFC 2308's min(SOA TTL, MINIMUM) of the first
+   SOA of the authority section, zero included — or the 600 s constant when it
+   finds none *)
+Theorem negative_ttl_is_translated :
+  forall m : T_Msg,
+  ttl_ceiling cur (map soa_of (T_Msg_Ns m))
+  = (let '(t, ok) := go_negativeAAAATTL m in if ok then t else no_soa_ttl_ceiling)
+  /\ (forall t, go_negativeAAAATTL m = (t, true) ->
+      exists ttl mn, first_soa (map soa_of (T_Msg_Ns m)) = Some (ttl, mn) /\ t = N.min ttl mn)
+  /\ (snd (go_negativeAAAATTL m) = false <-> first_soa (map soa_of (T_Msg_Ns m)) = None).
+Proof. exact ttl_ceiling_by_gen. Qed.
+Print Assumptions negative_ttl_is_translated.
+
+(* splitChainAndA: the chain and the addresses synthesise works on are the
+   CNAME/DNAME records and the A records of the A answer, each in its order *)
+Theorem split_chain_and_a_is_translated :
+  forall (resp : T_Msg) (ans : list rr),
+  T_Msg_Answer resp = map rr_as_I ans ->
+  go_splitChainAndA resp = (map rr_as_I (filter is_chain ans), map rr_as_A (filter is_a ans)).
+Proof. exact split_by_gen. Qed.
+Print Assumptions split_chain_and_a_is_translated.
+
+(* hasAAAAInList on the answer section synthesise has built (capped chain, then
+   the synthesised records) = "something was synthesised": the model's test for
+   the fall-back *)
+Theorem has_aaaa_is_translated :
+  forall c ttl chain addrs,
+  Forall (fun x => is_chain x = true) chain ->
+  go_hasAAAAInList (map rr_as_I (map (cap_ttl ttl) chain ++ synth_rrs c ttl addrs))
+  = negb (length (synth_rrs c ttl addrs) =? 0)%nat.
+Proof. exact synth_answers_have_aaaa. Qed.
+Print Assumptions has_aaaa_is_translated.
+
+(* ------------------------------------------------------------------ *)
+(* PTR, for ALL ip6.arpa names (session 5).  parseIP6ArpaName accepts only the
+   names of addresses: whatever it accepts — any letter case, with or without
+   the final dot — is, lower-cased and dot-terminated, the RFC 3596 name of
+   the 16 bytes it returns (with arpa_name_parses: exactly those) *)
+Theorem arpa_parser_accepts_only_names :
+  forall qname a, bytes_ok qname -> parse_ip6_arpa qname = Some a ->
+  length a = 16%nat /\ bytes_ok a /\ trim_suffix (lower qname) [46] ++ [46] = arpa_name a.
+Proof. exact parse_only_arpa_names. Qed.
+Print Assumptions arpa_parser_accepts_only_names.
+
+(* whenever the handler chases a PTR question — no assumption on its name — the
+   name is the ip6.arpa name of an address that is the RFC 6052 embedding, under
+   a configured prefix that does not exclude it, of the very IPv4 address whose
+   in-addr.arpa name is chased (and the CNAME points at, ptr_chase_question) *)
+Theorem ptr_chase_all_names :
+  forall cf q down work al cut s,
+  Forall (fun p => legal_prefix (cp_net p) /\ bytes_ok (n_ip (cp_net p))) (c_prefixes (compile cf)) ->
+  bytes_ok (q_name q) -> q_type q = type_ptr ->
+  sub_query cur cf q down work al cut = Some s ->
+  exists addr p w, length addr = 16%nat /\ lower (q_name q) = arpa_name addr
+    /\ In p (c_prefixes (compile cf)) /\ addr = embed (cp_net p) w /\ length w = 4%nat
+    /\ should_exclude_a (compile cf) w p = false
+    /\ spec_parse_in_addr (sq_name s) = Some w
+    /\ sq_type s = type_ptr /\ sq_class s = class_in /\ sq_rd s = true /\ sq_cd s = false.
+Proof. exact ptr_chase_all_names_lem. Qed.
+Print Assumptions ptr_chase_all_names.
